@@ -196,6 +196,13 @@ async fn build_spend(sc: &mut Sc, rng: &mut Rng, rep: &mut Report) -> bool {
             return true;
         }
     };
+    judge_built(sc, rng, rep, tx, label, balance, amount, fee, &ledger, latest).await
+}
+
+/// E3 for a transaction the wallet just built; its inputs become commitments
+#[allow(clippy::too_many_arguments)]
+async fn judge_built(sc: &mut Sc, rng: &mut Rng, rep: &mut Report, tx: Transaction, label: &str, balance: u64, amount: u64, fee: u64, ledger: &RefLedger, latest: u64) -> bool {
+    let gp = sc.b.params.gp;
     rep.eval();
     rep.count("built_txs");
     rep.nontrivial(&format!("build|{}|{}|{}|{}", label, tx.from.len(), tx.to.len(), latest));
@@ -207,8 +214,9 @@ async fn build_spend(sc: &mut Sc, rng: &mut Rng, rep: &mut Report) -> bool {
         rep.violation(&format!("C19|clause=built-tx-repeats-input|case={}", label), "a transaction built by the wallet lists an output twice", witness.clone());
         return false;
     }
-    let tin: u128 = tx.from.iter().map(|s| s.amount as u128).sum();
-    let tout: u128 = tx.to.iter().map(|s| s.amount as u128).sum();
+    // (the amounts carried by bound slips are identifiers, not value)
+    let tin: u128 = tx.from.iter().filter(|s| s.slip_type as u8 != TYPE_BOUND).map(|s| s.amount as u128).sum();
+    let tout: u128 = tx.to.iter().filter(|s| s.slip_type as u8 != TYPE_BOUND).map(|s| s.amount as u128).sum();
     if tout > tin {
         rep.violation(
             &format!("C19|clause=built-tx-outputs-exceed-inputs|reorg={}", sc.reorged),
@@ -217,7 +225,7 @@ async fn build_spend(sc: &mut Sc, rng: &mut Rng, rep: &mut Report) -> bool {
         );
         return false;
     }
-    if let Some(why) = ref_invalid(&tx, &ledger, gp, latest + 1) {
+    if let Some(why) = ref_invalid(&tx, ledger, gp, latest + 1) {
         for s in tx.from.iter().filter(|s| s.amount > 0) {
             let k = ref_key(&s.public_key, s.block_id, s.tx_ordinal, s.slip_index, s.amount, s.slip_type as u8);
             if !ledger.utxo.contains_key(&k) {
@@ -237,7 +245,23 @@ async fn build_spend(sc: &mut Sc, rng: &mut Rng, rep: &mut Report) -> bool {
         tx.validate(&chain.utxoset, &chain, true)
     };
     if !node_valid {
+        if std::env::var("SVH_DEBUG").is_ok() {
+            crate::logsink::install_stderr(log::LevelFilter::Debug);
+            log::set_max_level(log::LevelFilter::Debug);
+            let chain = sc.node.chain.read().await;
+            eprintln!("=== refused tx: type {:?} from {:?} to {:?}", tx.transaction_type, tx.from.iter().map(|s| (s.block_id, s.tx_ordinal, s.slip_index, s.amount, s.slip_type)).collect::<Vec<_>>(), tx.to.iter().map(|s| (s.amount, s.slip_type)).collect::<Vec<_>>());
+            let _ = tx.validate(&chain.utxoset, &chain, true);
+            log::set_max_level(log::LevelFilter::Off);
+        }
         rep.violation(&format!("C19|clause=built-tx-refused-by-own-node|case={}", label), "Transaction::validate refuses a transaction the wallet just built", witness);
+        if label == "nft-with-further-inputs" {
+            // the scenario goes on: the transaction is simply never sent, its inputs stay committed
+            for k in keys {
+                sc.committed.insert(k);
+            }
+            rep.count("built_never_submitted");
+            return true;
+        }
         return false;
     }
     for k in keys {
@@ -250,6 +274,51 @@ async fn build_spend(sc: &mut Sc, rng: &mut Rng, rep: &mut Report) -> bool {
         rep.count("built_never_submitted");
     }
     true
+}
+
+/// the wallet creates an NFT from one of its outputs (Wallet::create_bound_transaction): with a
+/// deposit below the output's amount (change) or above it (further inputs through generate_slips)
+async fn build_nft(sc: &mut Sc, rng: &mut Rng, rep: &mut Report) -> bool {
+    let gp = sc.b.params.gp;
+    let latest = sc.b.store.get(&sc.tip).id;
+    let ledger = sc.b.store.ledger(&sc.tip);
+    let pk = sc.b.actors[sc.w].pk;
+    let (balance, pick) = {
+        let w = sc.node.wallet.read().await;
+        let mut mine: Vec<OutRef> = ledger.utxo.values().filter(|o| o.owner == pk && o.slip_type == 0 && o.amount > 2_000 && ledger.in_window(o, gp) && o.block_id + gp > latest + 2 && w.unspent_slips.contains(&o.key())).cloned().collect();
+        mine.sort_by_key(|o| o.key());
+        if mine.is_empty() {
+            return true;
+        }
+        (w.get_available_balance(), mine[rng.below(mine.len() as u64) as usize].clone())
+    };
+    let (deposit, label) = if rng.chance(1, 2) { (pick.amount / 2, "nft-with-change") } else { (pick.amount + 1 + rng.below(balance.saturating_sub(pick.amount).max(2) / 2), "nft-with-further-inputs") };
+    let to = sc.b.actors[(2 + rng.below(3)) as usize].pk;
+    let built = {
+        let mut w = sc.node.wallet.write().await;
+        let r = crate::panics::catch_async(w.create_bound_transaction(pick.amount, pick.block_id, pick.tx_ordinal, pick.slip_index as u64, deposit, vec![1, 2, 3], &to, None, latest, gp, "harness".to_string())).await;
+        match r {
+            Ok(Ok(mut tx)) => {
+                tx.generate(&pk, 0, 0);
+                tx.sign(&sc.b.actors[sc.w].sk);
+                tx.generate(&pk, 0, 0);
+                Some(tx)
+            }
+            Ok(Err(_)) => None,
+            Err(p) => {
+                rep.violation(&format!("C19|clause=create-panics|case={}|{}", label, p.signature()), &format!("Wallet::create_bound_transaction panicked ({}): {}", label, p.message), json!({"kind":"wallet-ops","trace": sc.trace}));
+                return false;
+            }
+        }
+    };
+    rep.count(&format!("builds.{}", label));
+    match built {
+        Some(tx) => judge_built(sc, rng, rep, tx, label, balance, deposit, 0, &ledger, latest).await,
+        None => {
+            rep.count("builds_refused");
+            true
+        }
+    }
 }
 
 async fn next_block(sc: &mut Sc, rng: &mut Rng, rep: &mut Report, parent: Hash, include_outbox: bool) -> Option<Hash> {
@@ -376,8 +445,9 @@ async fn scenario(rng: &mut Rng, rep: &mut Report, with_reorgs: bool, gp: u64, s
     for step in 0..steps {
         let op = rng.below(10);
         if op < 4 {
-            sc.trace.push(format!("build@{}", sc.b.store.get(&sc.tip).id));
-            if !build_spend(&mut sc, rng, rep).await {
+            let nft = rng.chance(1, 6);
+            sc.trace.push(format!("{}@{}", if nft { "build-nft" } else { "build" }, sc.b.store.get(&sc.tip).id));
+            if !(if nft { build_nft(&mut sc, rng, rep).await } else { build_spend(&mut sc, rng, rep).await }) {
                 return;
             }
             if !check_wallet(&mut sc, rep, "build").await {
